@@ -91,6 +91,18 @@ def _chunk_body(ea, eb, mants, Prefix, Prefixed, hexp):
                     bad("num*e(k)", sa, None, "inexact", str(fval(r)), str(va))
             except Exception as e:
                 bad("num*e(k)", sa, None, "raised", short_exc(e))
+            # ... and with exponents that are not prefixes themselves (e(4) = 10 * KILO), on a plain and on a prefixed number
+            for k in (4, 5, 7, -4, -7, 10, -10, 25, -26):
+                for op, fn, want in (("num*e(k)", lambda: Decimal(ma) * hexp(k), Fraction(ma) * Fraction(10) ** k), ("x*e(k)", lambda: A * hexp(k), va * Fraction(10) ** k)):
+                    if op == "x*e(k)" and not -27 <= ea + k <= 27:
+                        continue
+                    n += 1
+                    try:
+                        r = fn()
+                        if not isinstance(r, Prefixed) or fval(r) != want:
+                            bad(op, sa, k, "inexact", str(fval(r)) if isinstance(r, Prefixed) else r, str(want))
+                    except Exception as e:
+                        bad(op, sa, k, "raised", short_exc(e))
             for et in PREFIX_EXPS:
                 # a prefixed number times a prefix, e.g. `(5 * n) * G`
                 if -24 <= ea + et <= 24:
